@@ -98,6 +98,12 @@ def step (ws : List String) (_impl : String) : Ans :=
           { m := s!"ops={if outs.isEmpty then "none" else ",".intercalate outs} q={s1.queue.length} fin={n}:{showWrites (s2.sock.drop s1.sock.length)} all={hexOfBytes all}",
             s := if ok then "=" else s!"all={hexOfBytes (written ops)}" }
       | none => bad
+  | ["wqc", a, b, _limited] =>
+      -- a write that arrives while a flush is inside the socket's Write waits for it (Flush keeps the
+      -- connection's lock while it writes): the client receives a, then b
+      match bytesOfHex a, bytesOfHex b with
+      | some a, some b => { m := s!"all={hexOfBytes (a ++ b)}" }
+      | _, _ => bad
   | ["wsr", frames, after, drain] =>
       match parseList "," parseFrame frames, parseList "," parseNat after, drain.toNat? with
       | some frames, some after, some d =>
